@@ -137,3 +137,57 @@ def overflow_asserts(body):
         if t and t["k"] == "assert" and t["msg"].startswith("overflow"):
             out.append((render(body.operand_expr(t["c"])), t["msg"], Site(body, bi)))
     return out
+
+
+# ---------------------------------------------------------------------------- mplex io.rs helpers (C24, C26)
+MP = "libp2p_mplex"
+
+
+def io_body(ctx, name):
+    return ctx.body(MP, r"^libp2p_mplex::io::Multiplexed::%s$" % name)
+
+
+def substream_inserts(body):
+    """`self.substreams.insert(key, value)` call sites of a body: list of (site, key text, value expr)."""
+    out = []
+    for s in body.call_sites(r"HashMap::insert$"):
+        e = body.site_expr(s)
+        if render(e[2][0]) == "self.substreams":
+            out.append((s, render(e[2][1]), e[2][2]))
+    return out
+
+
+def variant_table(body, state_pat, variants, classify, extra=None):
+    """Abstractly run `body` once per enum variant: at switches whose rendered condition matches `state_pat` only the
+    edge of that variant is followed (other atoms: `extra` = dict atom-regex -> label); every other switch is
+    followed on all edges.  Returns (dict variant -> sorted list of classify(rendered `_0` value)), unknown-conditions)."""
+    from . import lib
+    z = zero_assigns(body)
+    amap = [(state_pat, "state")] + [(p, "x%d" % i) for i, p in enumerate(extra or {})]
+    tab, unk_all = {}, set()
+    for v in variants:
+        asg = {"state": v}
+        for i, p in enumerate(extra or {}):
+            asg["x%d" % i] = extra[p]
+        res, unk, bare = lib.cell_eval(body, asg, amap, set(z))
+        unk_all |= unk
+        tab[v] = sorted({classify(z[b]) for b in res})
+    return tab, unk_all
+
+
+def frame_switch(body):
+    """The 4-way switch on a received Frame: (switch bb, rendered frame expr, {variant: target bb})."""
+    for bi in sorted(body.live):
+        info = body.switch_info(bi)
+        if not info:
+            continue
+        cond, labs = info
+        allv = {l for ls in labs.values() for l in ls}
+        if cond[0] == "discr" and allv == {"Open", "Data", "Close", "Reset"} and "poll_read_frame" in render(cond):
+            return bi, render(cond[1]), {l: t for t, ls in labs.items() for l in ls}
+    raise mir.RuleError("no Frame dispatch in %s" % body.npath)
+
+
+def result_blocks(body, pred):
+    """Blocks assigning `_0` a value whose rendering satisfies pred (statement results) or whose callee does (calls)."""
+    return sorted(b for b, r in zero_assigns(body).items() if pred(r))
